@@ -483,7 +483,14 @@ func (s *Sim) Run() {
 			}
 		}
 		if s.TraceOut != nil {
-			*s.TraceOut = append(*s.TraceOut, fmt.Sprintf("step=%d t=%s task=%s site=%s", s.step, time.Duration(now), t.name, t.site))
+			// rendered schedule: one line per context switch (runs of the same task are summarised)
+			if s.cur != t {
+				from := "-"
+				if s.cur != nil {
+					from = s.cur.name + "@" + s.cur.site
+				}
+				*s.TraceOut = append(*s.TraceOut, fmt.Sprintf("step=%d t=%s switch %s -> %s@%s", s.step, time.Duration(now), from, t.name, t.site))
+			}
 		}
 		s.cur = t
 		s.mu.Unlock()
